@@ -68,7 +68,7 @@ Unary(x) ==
           ELSE {})
     \cup (IF "op_densify" \in Acts THEN {N("op_densify", <<x>>, NoP)} ELSE {})
     \cup (IF "op_rdiv" \in Acts /\ ShapeOf(x)[1] = ShapeOf(x)[2] /\ ShapeOf(x)[1] <= 3
-          THEN IF MIsSingular(Denote(x)) THEN {}
+          THEN IF ~EntriesWithin(Denote(x), 10) \/ MIsSingular(Denote(x)) THEN {}
                ELSE {N("op_rdiv", <<x>>, Scalars[i]): i \in {j \in 1..Len(Scalars): ~QIsZero(Scalars[j].c)}}
           ELSE {})
     \cup (IF "op_scalar" \in Acts
@@ -100,7 +100,8 @@ Ternary(x, o1, o2) ==
     \cup (IF "op_sum" \in Acts THEN {N("op_sum", <<x, o1, o2>>, NoP)} ELSE {})
 
 \* shape errors are reachable on purpose (the property demands a rejection) when "errors" is enabled
-Accept(n) == IF WellFormed(n) THEN Fits(n)
+\* entries stay small enough that no 32-bit overflow can occur while the next action is evaluated
+Accept(n) == IF WellFormed(n) THEN Fits(n) /\ EntriesWithin(Denote(n), 2000)
              ELSE "errors" \in Acts /\ n.k \in {"op_matmul", "op_add", "op_sub", "op_sum", "Product", "Sum"}
 \* results that are arrays, not operators: nothing can be applied to them
 Terminal(n) == \/ n.k \in {"op_getitem", "op_densify"}
